@@ -277,7 +277,40 @@ def new_parser_state(cm: ClassModel, text: str, pos: int, parser: Any, where: st
     missing = [f for f in ("input", "pos", "parser") if f not in fs]
     if missing:
         raise AnalysisError(f"{where}: ParserState.__init__ does not set {missing} from a parameter")
-    return cm.new("ParserState", **{fs["input"]: text, fs["pos"]: pos, fs["parser"]: parser})
+    st = cm.new("ParserState", **{fs["input"]: text, fs["pos"]: pos, fs["parser"]: parser})
+    count_checkpoints(cm, st)
+    return st
+
+
+def count_checkpoints(cm: ClassModel, st: Obj) -> None:
+    """Count open checkpoints by the calls themselves (checkpoint() opens one, ok() and restore() close one), whatever
+    the state keeps them in: every `state.checkpoint()` the evaluated source performs goes through these wrappers."""
+    st.__dict__["_sa_open"] = 0
+
+    def wrap(name: str, delta: int):  # noqa: ANN202
+        m = None
+        for k in st.kinds:
+            m = cm.get((k, name))
+            if m is not None:
+                break
+        if m is None:
+            raise AnalysisError(f"{cm.where}: anchor vanished: ParserState.{name}")
+
+        def call(*a: Any, **kw: Any) -> Any:
+            r = m(st, *a, **kw)
+            st.__dict__["_sa_open"] += delta
+            return r
+
+        return call
+
+    for name, delta in (("checkpoint", 1), ("ok", -1), ("restore", -1)):
+        st.__dict__[name] = wrap(name, delta)
+
+
+def open_checkpoints(st: Obj) -> int:
+    if "_sa_open" not in st.__dict__:
+        raise AnalysisError("open_checkpoints: the model state was not built by new_parser_state")
+    return st.__dict__["_sa_open"]
 
 
 def maybe_install_re(cm: ClassModel) -> None:
